@@ -95,6 +95,9 @@ func (msg *PackedForwardMessage) DecodeMsg(dc *msgp.Reader) error {
 		return msgp.WrapError(err, "Array Header")
 	}
 
+	// a reused receiver must not keep the options of an earlier message
+	msg.Options = nil
+
 	if msg.Tag, err = dc.ReadString(); err != nil {
 		return msgp.WrapError(err, "Tag")
 	}
@@ -127,6 +130,9 @@ func (msg *PackedForwardMessage) UnmarshalMsg(bits []byte) ([]byte, error) {
 	if sz, bits, err = msgp.ReadArrayHeaderBytes(bits); err != nil {
 		return bits, msgp.WrapError(err, "Array Header")
 	}
+
+	// a reused receiver must not keep the options of an earlier message
+	msg.Options = nil
 
 	if msg.Tag, bits, err = msgp.ReadStringBytes(bits); err != nil {
 		return bits, msgp.WrapError(err, "Tag")
